@@ -1,5 +1,5 @@
 """Data plane: single-file copy scenarios (from TLC's enumeration of XcpData's initial states), real runs, observations."""
-import os, shutil
+import os, shutil, tempfile
 from . import fsmat, runner, tlc
 from .common import scratch, rng, ToolError
 
@@ -36,8 +36,10 @@ def layout_cells(sc):
     sset = set(sc["salloc"])
     return [1 if (i + 1) in sset else 0 for i in range(sc["len"])]
 
+LIFE_TRACE = "openat,ftruncate,ioctl,lseek,copy_file_range,pread64,read,fchmod,utimensat,fsync,fchown,fsetxattr,flistxattr"
+
 def run_one(binary, sc, run_id, cell=None, tail=0, workers=None, plan=None, no_progress=False, block_bytes=None,
-            extra=None, strace=None, keep=False, timeout=60, fsync_src=True):
+            extra=None, strace=None, keep=False, timeout=60, fsync_src=True, life=False):
     """Materialise one source file, optional prior destination; run xcp; observe destination cells and allocation."""
     root = os.path.join(scratch(), "dp-%s" % run_id)
     shutil.rmtree(root, ignore_errors=True)
@@ -74,6 +76,8 @@ def run_one(binary, sc, run_id, cell=None, tail=0, workers=None, plan=None, no_p
     if items:
         env["XCP_VERIF_PLAN"] = ";".join(items)
     st = None
+    if life and strace is None:
+        strace = {"trace": LIFE_TRACE}
     if strace is not None:
         st = dict(strace); st["out"] = root + ".strace"
     sst = os.stat(src)
@@ -100,6 +104,27 @@ def run_one(binary, sc, run_id, cell=None, tail=0, workers=None, plan=None, no_p
         obs.update({"dlen": n, "druns": runs_of(cls_of(cells)), "dtail": t, "dtailc": tc, "dblocks": dst_st.st_blocks, "dmap": fsmat.data_map(dstp)})
     else:
         obs.update({"dlen": -1, "druns": [], "dtail": 0, "dtailc": 0, "dblocks": 0, "dmap": []})
+    obs["_life"] = None
+    if life and st and os.path.exists(st["out"]) and tail == 0:
+        if block_bytes is not None:
+            mbs = block_bytes // cell if block_bytes % cell == 0 else None
+        elif sc["bs"] > maxl and no_progress:
+            mbs = 1000000
+        else:
+            mbs = sc["bs"]
+        evs = lifecycle_events(st["out"], root, sc, cell) if mbs else None
+        if evs is not None and obs["dlen"] >= 0 and obs["dlen"] % cell == 0:
+            prior_cells = 0
+            if sc["prior"] > 0:
+                nb = max(1, total // 2) if sc["prior"] == 1 else total + cell + 5
+                prior_cells = (nb + cell - 1) // cell
+            obs["_life"] = evs
+            obs["_lifesc"] = {"len": sc["len"], "salloc": sc["salloc"], "driver": sc["driver"], "bs": mbs, "reflink": sc["reflink"], "kcopy": sc["kcopy"],
+                              "prior": prior_cells, "cell": cell, "dcells": [v if v >= 0 else 1000 - v for v in cells], "clamped": bool(plan)}
+        try:
+            os.unlink(st["out"])
+        except OSError:
+            pass
     obs["_run"] = {"stderr": r.stderr[-500:], "argv": argv, "env": env, "trace": st["out"] if st else None, "root": root,
                    "timed_out": r.timed_out, "wall": r.wall}
     if not keep:
@@ -132,3 +157,76 @@ def model_check(maxl, deviations="{}", workers=12, timeout=3000, invariants=None
     with open(cfgp, "w") as f:
         f.write(src)
     return tlc.run("MC_Data", cfgp, workers=workers, timeout=timeout)
+
+# ------------------------------------------------------------------ Layer-A trace validation (fidelity)
+def lifecycle_events(trace_path, root, sc, cell):
+    """strace log of one single-file run -> events of TraceA_Data (units: cells)."""
+    from . import s2e
+    src = os.path.join(root, "src"); dstp = os.path.join(root, "dst")
+    ev = []
+    pend_seek = None
+    saw_fin = False
+    uspace = sc["kcopy"] == "uspace"
+    def cells(n):
+        return n // cell if n % cell == 0 else None
+    recs = [r for r in s2e.parse(trace_path) if r["kind"] == "sys" and r["seq_ret"] is not None]
+    recs.sort(key=lambda r: r["seq_ret"])
+    for r in recs:
+        s, a = r["sys"], r["args"]
+        if s == "openat" and r["ret"] is not None and r["ret"] >= 0:
+            p = r["retpath"] and s2e.unquote('"' + r["retpath"] + '"')
+            if p == dstp and "O_CREAT" in a[2]:
+                ev.append({"e": "create", "n": 0, "ans": "", "d": 0, "h": 0, "off": 0, "req": 0, "ret": 0, "ok": "O_TRUNC" in a[2]})
+            continue
+        fd, path = s2e.fdpath(a[0]) if a else (None, None)
+        if s == "ftruncate" and path == dstp:
+            n = cells(int(a[1]))
+            ev.append({"e": "alloc", "n": -1 if n is None else n, "ans": "", "d": 0, "h": 0, "off": 0, "req": 0, "ret": 0, "ok": True})
+        elif s == "ioctl" and len(a) > 1 and "FICLONE" in a[1] and path == dstp:
+            ans = "ok" if r["ret"] == 0 else ("unsupported" if r["errno"] in ("EOPNOTSUPP", "EINVAL", "EXDEV", "ETXTBSY", "EBADF") else "error")
+            ev.append({"e": "clone", "n": 0, "ans": ans, "d": 0, "h": 0, "off": 0, "req": 0, "ret": 0, "ok": True})
+        elif s == "ioctl" and len(a) > 1 and "FIEMAP" in a[1] and path == src:
+            if not ev or ev[-1]["e"] != "fiemap":
+                ev.append({"e": "fiemap", "n": 0, "ans": "", "d": 0, "h": 0, "off": 0, "req": 0, "ret": 0, "ok": r["ret"] == 0})
+        elif s == "lseek" and path == src and len(a) > 2 and a[2] in ("SEEK_DATA", "SEEK_HOLE"):
+            val = r["ret"] if r["ret"] is not None and r["ret"] >= 0 else sc["len"] * cell
+            if a[2] == "SEEK_DATA":
+                pend_seek = val
+            elif pend_seek is not None:
+                ev.append({"e": "seek", "n": 0, "ans": "", "d": pend_seek // cell, "h": val // cell, "off": 0, "req": 0, "ret": 0, "ok": True})
+                pend_seek = None
+        elif s == "copy_file_range" and not uspace:
+            fo, po = s2e.fdpath(a[2])
+            if po != dstp or r["ret"] is None or r["ret"] < 0:
+                continue
+            off = a[3].strip("[]")
+            o, q, t = (-1 if off == "NULL" else cells(int(off))), cells(int(a[4])), cells(r["ret"])
+            if None in (o, q, t):
+                return None
+            ev.append({"e": "copy", "n": 0, "ans": "", "d": 0, "h": 0, "off": o, "req": q, "ret": t, "ok": True})
+        elif uspace and s in ("pread64", "read") and path == src and r["ret"] is not None and r["ret"] > 0:
+            o = cells(int(a[3])) if s == "pread64" else -1
+            q, t = cells(int(a[2])), cells(r["ret"])
+            if None in (o, q, t):
+                return None
+            ev.append({"e": "copy", "n": 0, "ans": "", "d": 0, "h": 0, "off": o, "req": q, "ret": t, "ok": True})
+        elif s in ("fchmod", "utimensat", "fsync", "fchown", "fsetxattr", "flistxattr") and (path == dstp or path == src) and not saw_fin:
+            saw_fin = True
+            ev.append({"e": "fin", "n": 0, "ans": "", "d": 0, "h": 0, "off": 0, "req": 0, "ret": 0, "ok": True})
+    return ev
+
+def fidelity(observations):
+    """observations with '_life' (events) -> (accepted ids, rejected ids, stats).  One TLC run for the whole batch."""
+    recs = []
+    for o in observations:
+        if o.get("_life") is None:
+            continue
+        recs.append({"id": o["id"], "sc": o["_lifesc"], "ev": o["_life"]})
+    if not recs:
+        return set(), set(), None
+    path = tempfile.mktemp(prefix="lifeA-", suffix=".ndjson", dir=scratch())
+    tlc.write_ndjson(path, recs)
+    r = tlc.run("TraceA_Data", "TraceA_Data.cfg", workers=4, env={"TRACE": path}, timeout=1800, want_tags={"ACCEPT"})
+    os.unlink(path)
+    acc = {v["id"] for t, v in r.printed if t == "ACCEPT"}
+    return acc, {x["id"] for x in recs} - acc, r
